@@ -174,11 +174,12 @@ Qed.
 
 (* the element lists of the engine's model are the reference's element lists of the table *)
 Theorem model_elements tt structs protos msgs m :
-  tt_model tt structs protos msgs = Some m ->
+  tt_model tt structs protos msgs = Some m -> sm_tps m = tps_of (table_of tt) ->
   elements_of_model m = elements_of (table_of tt) structs protos msgs.
 Proof.
-  unfold tt_model. destruct (fold_left tps_step tt (Some [])) as [tps|]; [|discriminate]. intros E. inversion E. subst m. clear E.
-  unfold elements_of_model, elements_of. cbn [sm_states sm_events sm_actions sm_guards sm_actionsigs if_structs if_protos if_msgs].
-  rewrite tt_states_first_appearance, tt_actions_first_appearance, tt_guards_first_appearance, tt_sigs_first_appearance.
+  unfold tt_model. destruct (fold_left tps_step tt (Some [])) as [tps|]; [|discriminate]. intros E Ht. inversion E. subst m. clear E.
+  cbn [sm_tps] in Ht.
+  unfold elements_of_model, elements_of. cbn [sm_states sm_events sm_actions sm_guards sm_actionsigs sm_tps if_structs if_protos if_msgs].
+  rewrite Ht, tt_states_first_appearance, tt_actions_first_appearance, tt_guards_first_appearance, tt_sigs_first_appearance.
   rewrite add_missing_adds, tt_events_first_appearance. reflexivity.
 Qed.
